@@ -104,14 +104,14 @@ theorem C02_square_avx_128 (a : V4) (i : Fin 4) :
 
 /-- square_avx -/
 theorem C02_square_avx (a : V4) (i : Fin 4) :
-    ((square_avx a).1.get i).toNat % P = ((a.get i).toNat * (a.get i).toNat) % P := (square_spec a i).1
+    ((square_avx a).get i).toNat % P = ((a.get i).toNat * (a.get i).toNat) % P := square_spec a i
 
 /-- every general-purpose lane kernel yields the field element the scalar operation yields on that lane -/
 theorem C02_agrees_with_scalar (a b : V4) (i : Fin 4) :
     ((add_avx__vVV a b).get i).toNat % P = C01.rd (Gen.Scalar.add__eEE (a.get i) (b.get i)) ∧
     ((sub_avx__vVV a b).get i).toNat % P = C01.rd (Gen.Scalar.sub__eEE (a.get i) (b.get i)) ∧
     ((mult_avx a b).get i).toNat % P = C01.rd (Gen.Scalar.mul__eEE (a.get i) (b.get i)) ∧
-    ((square_avx a).1.get i).toNat % P = C01.rd (Gen.Scalar.square__rE (a.get i)) ∧
+    ((square_avx a).get i).toNat % P = C01.rd (Gen.Scalar.square__rE (a.get i)) ∧
     ((toCanonical_avx a).get i) = Gen.Scalar.toU64__rE (a.get i) := by
   refine ⟨?_, ?_, ?_, ?_, ?_⟩
   · rw [C02_add_avx, (C01.C01_add _ _).1]
